@@ -49,6 +49,13 @@ def check_case(ctx, case):
     rj = ctx.conv(gen.text_of(rows))
     if not rj.ok:
         return 'conversion failed: ' + rj.fail_text()
+    if key_of(rows)[0] % 10 == 0 and not any('"' in r or '# Legend:' in r for r in rows):
+        # "adding a drawing far away": one CellBuffer holds and renders the first part, is then edited to hold the
+        # whole juxtaposition and rendered again (driver entry 6; quoted text cannot be carried by that path)
+        r6 = ctx.conv(gen.text_of(parts[0]) + '\x1e' + gen.text_of(rows), entry=6)
+        ctx.tag('juxtapositions_built_in_an_existing_buffer')
+        if not r6.ok or r6.out != rj.out:
+            return 'a buffer that rendered the first part and was then extended to the juxtaposition renders differently from the juxtaposition converted from text'
     try:
         joint = Scene(rj.out)
         exp = []
